@@ -435,6 +435,13 @@ class Mesh:
             for elem in marked_time:
                 self.refine_time(elem)
 
+            # Replace elements marked for space refinement that have been
+            # refined by the (closure of the) time refinement.
+            marked_space = [
+                child for elem in marked_space
+                for child in (elem.children if elem.children else (elem, ))
+            ]
+
             marked_space.sort(key=lambda elem: elem.level_space)
             for elem in marked_space:
                 assert not elem.children
